@@ -138,6 +138,10 @@ def part_repair(ctx, n):
                 ctx.violation("repair-command-raises", e, w)
             if not rep["idempotent"]:
                 ctx.violation("repair-not-idempotent", f"state {state}: a second repair changed the jobs tree: {rep.get('idempotence_diff')}", w)
+            for step, bad in rep.get("unreachable_after", []):
+                ctx.count("reachability_inspections")
+                if bad:
+                    ctx.violation("old-result-not-reachable:after-" + step.split(" (")[0].replace(" ", "-"), f"state {state}: after {step}, not reachable under the new identifier: {bad[:3]}", w)
             for j in rep["jobs"]:
                 ctx.count("jobs_repaired")
                 wj = dict(w, job=j)
